@@ -20,9 +20,12 @@ def enum_docs(tier, layouts_q=(' ', '\n', ''), layouts_t=(' ', '\n')):
     catalogue (plus n <= 2 over everything)"""
     names = cat.ALL
     if tier == 'quick':
+        core = set(cat.CORE)
         for n in (1, 2):
             for f in cat.forests(names, n):
                 for sep in layouts_q:
+                    if n == 2 and sep == '' and not all(x in core for x in cat.names_in(f)):
+                        continue        # glued layout for pairs: core catalogue only (all pairs in the thorough tier)
                     yield f, sep
     else:
         for n in (1, 2):
